@@ -405,4 +405,248 @@ theorem withExt_marked_pna (b e : Str) (hb : b ≠ []) (he : e.map lower = ['p',
   simp only [List.append_assoc, List.cons_append] at hs
   exact withExt_pna_numbered m hs he hs1 (isPartMarker_partExt n)
 
+-- ---------------------------------------------------------------- the shape of `withExt` output
+
+/-- On a `Good` name the output is `b.partN` with `b` a name without extension, or `b.partN.e`
+    with `b` non-empty and `e` a `pna` extension; `b` and `e` do not depend on `n`. -/
+theorem withExt_shape {name : Str} (hg : Good name) (hs : splitExt name ≠ none) :
+    (∃ b, splitExt b = some (b, none) ∧ ∀ n, withExt name n = some (b ++ '.' :: partExt n)) ∨
+    (∃ b e, b ≠ [] ∧ e.map lower = ['p', 'n', 'a'] ∧
+      ∀ n, withExt name n = some (b ++ '.' :: (partExt n ++ '.' :: e))) := by
+  cases h : splitExt name with
+  | none => exact absurd h hs
+  | some p =>
+    obtain ⟨stem, x⟩ := p
+    cases x with
+    | none =>
+      have := splitExt_some_none h
+      subst this
+      exact Or.inl ⟨stem, h, fun n => withExt_plain _ n h⟩
+    | some e =>
+      obtain ⟨_, hstem, _⟩ := splitExt_some_ext h
+      by_cases he : e.map lower = ['p', 'n', 'a']
+      · right
+        by_cases hm : Numbered stem
+        · unfold Numbered at hm
+          split at hm
+          · rename_i base e2 hs2
+            exact ⟨base, e, (splitExt_some_ext hs2).2.1, he,
+              fun n => withExt_pna_numbered n h he hs2 hm⟩
+          · exact hm.elim
+        · exact ⟨stem, e, hstem, he, fun n => withExt_pna_unnumbered n h he hm⟩
+      · left
+        unfold Good at hg
+        simp only [h, if_neg he] at hg
+        cases hs2 : splitExt stem with
+        | none => simp [hs2] at hg
+        | some q =>
+          obtain ⟨s2, y⟩ := q
+          cases y with
+          | none =>
+            have := splitExt_some_none hs2
+            subst this
+            exact ⟨s2, hs2, fun n => by rw [withExt_other n h he, withExtension_plain _ _ hs2]⟩
+          | some e2 =>
+            simp only [hs2] at hg
+            obtain ⟨h2name, h2ne, h2d⟩ := splitExt_some_ext hs2
+            refine ⟨s2, hg.2, fun n => ?_⟩
+            rw [withExt_other n h he, h2name, withExtension_ext s2 e2 _ h2ne hg.1 h2d]
+
+theorem withExt_isSome_iff (name : Str) (n : Nat) :
+    (withExt name n).isSome ↔ splitExt name ≠ none := by
+  unfold withExt
+  split
+  · rename_i h; simp [h]
+  · rename_i h; simp [h]
+  · rename_i stem e h
+    simp only [h]
+    split
+    · split
+      · have : stem ≠ [] := (splitExt_some_ext h).2.1
+        split
+        · simp
+        · rename_i hm _ hs2
+          simp [hs2] at hm
+      · simp
+    · simp
+
+-- ---------------------------------------------------------------- `Good` is necessary
+
+theorem plain_of_withExtension_eq {s x : Str} (hne : s ≠ [])
+    (h : withExtension s x = s ++ '.' :: x) : splitExt s = some (s, none) := by
+  cases hs : splitExt s with
+  | none =>
+    rcases (splitExt_eq_none_iff s).mp hs with h0 | h0
+    · exact absurd h0 hne
+    · subst h0
+      rw [withExtension_dotdot] at h
+      have := congrArg List.length h
+      simp at this
+  | some p =>
+    obtain ⟨a, y⟩ := p
+    cases y with
+    | none => rw [splitExt_some_none hs]
+    | some b =>
+      obtain ⟨hsn, ha, hb⟩ := splitExt_some_ext hs
+      exfalso
+      by_cases ha' : a = ['.']
+      · subst ha'
+        have hbne : b ≠ [] := by
+          intro hb0
+          subst hb0
+          rw [hsn] at hs
+          revert hs
+          decide
+        rw [hsn] at h
+        simp only [List.cons_append, List.nil_append] at h
+        rw [withExtension_dot_ext b x hb hbne] at h
+        have := congrArg List.length h
+        simp at this
+      · rw [hsn, withExtension_ext a b x ha ha' hb] at h
+        have := congrArg List.length h
+        simp at this
+        omega
+
+theorem withExt_dotdot (n : Nat) : withExt ['.', '.'] n = none := by
+  have h2 : splitExt ['.', '.'] = none := by decide
+  simp only [withExt, h2]
+
+/-- renumbering already fails for `n = m = 0` on every name that is not `Good` -/
+theorem good_of_renumber {name : Str}
+    (h : ∀ w, withExt name 0 = some w → withExt w 0 = withExt name 0) : Good name := by
+  unfold Good
+  split
+  · rename_i stem e hs
+    split
+    · trivial
+    · rename_i he
+      have hw := withExt_other 0 hs he
+      have hstem : stem ≠ [] := (splitExt_some_ext hs).2.1
+      split
+      · rename_i hs2
+        rcases (splitExt_eq_none_iff stem).mp hs2 with h0 | h0
+        · exact hstem h0
+        · subst h0
+          rw [withExtension_dotdot] at hw
+          have := h _ hw
+          rw [withExt_dotdot, hw] at this
+          cases this
+      · trivial
+      · rename_i s2 e2 hs2
+        obtain ⟨h2name, h2ne, h2d⟩ := splitExt_some_ext hs2
+        by_cases hdot : s2 = ['.']
+        · exfalso
+          subst hdot
+          have he2 : e2 ≠ [] := by
+            intro h0
+            subst h0
+            rw [h2name] at hs2
+            revert hs2
+            decide
+          rw [h2name] at hw
+          simp only [List.cons_append, List.nil_append] at hw
+          rw [withExtension_dot_ext e2 _ h2d he2] at hw
+          have := h _ hw
+          rw [withExt_dotdot, hw] at this
+          cases this
+        · refine ⟨hdot, ?_⟩
+          rw [h2name, withExtension_ext s2 e2 _ h2ne hdot h2d] at hw
+          have h1 := h _ hw
+          have hsw := splitExt_append_dot s2 (partExt 0) h2ne (dot_not_mem_partExt 0)
+            (Or.inr (partExt_ne_nil 0))
+          rw [withExt_other 0 hsw (partExt_not_pna 0), hw] at h1
+          exact plain_of_withExtension_eq h2ne (Option.some.inj h1)
+  · trivial
+
+-- ---------------------------------------------------------------- removeExt
+
+theorem removeExt_marked_plain (b : Str) (hb : b ≠ []) (n : Nat) :
+    removeExt (b ++ '.' :: partExt n) = some b := by
+  have hs := splitExt_append_dot b (partExt n) hb (dot_not_mem_partExt n)
+    (Or.inr (partExt_ne_nil n))
+  simp only [removeExt, hs, partPrefix_isPrefixOf_partExt, if_true]
+
+/-- `b.partN.pna` gives back `b.pna`, unless `b` is `.` -/
+theorem removeExt_marked_pna (b e : Str) (hb : b ≠ []) (hb' : b ≠ ['.'])
+    (he : e.map lower = ['p', 'n', 'a']) (n : Nat) :
+    removeExt (b ++ '.' :: (partExt n ++ '.' :: e)) = some (b ++ '.' :: e) := by
+  have hs1 := splitExt_append_dot b (partExt n) hb (dot_not_mem_partExt n)
+    (Or.inr (partExt_ne_nil n))
+  have hs := splitExt_append_dot (b ++ '.' :: partExt n) e (by simp) (dot_not_mem_of_pna he)
+    (Or.inr (pna_ne_nil he))
+  simp only [List.append_assoc, List.cons_append] at hs
+  have hw := withExtension_ext b (partExt n) e hb hb' (dot_not_mem_partExt n)
+  simp only [removeExt, hs, partPrefix_not_prefix_of_pna he, hs1, partPrefix_isPrefixOf_partExt,
+    if_true, hw]
+  simp
+
+-- ---------------------------------------------------------------- no '/' is introduced
+
+theorem slash_not_mem_withExt {name w : Str} {n : Nat} (hn : '/' ∉ name)
+    (h : withExt name n = some w) : '/' ∉ w := by
+  have hwe : ∀ s : Str, (∀ c ∈ s, c ∈ name) → '/' ∉ withExtension s (partExt n) := by
+    intro s hs hc
+    rcases mem_withExtension hc with h1 | h1 | h1
+    · exact hn (hs _ h1)
+    · revert h1; decide
+    · exact slash_not_mem_partExt n h1
+  unfold withExt at h
+  split at h
+  · cases h
+  · rename_i stem hs
+    cases h
+    exact hwe _ (fun c hc => mem_of_splitExt_stem hs hc)
+  · rename_i stem e hs
+    have hse := (splitExt_some_ext hs).1
+    have hstem : ∀ c ∈ stem, c ∈ name := fun c hc => mem_of_splitExt_stem hs hc
+    have he : '/' ∉ e := fun hc => hn (by rw [hse]; simp [hc])
+    have hp := slash_not_mem_partExt n
+    have hp' : '/' ∉ decimal n := fun hc => hp (by simp [partExt, hc])
+    split at h
+    · split at h
+      · split at h
+        · rename_i base x hs2
+          cases h
+          have hb : '/' ∉ base := fun hc => hn (hstem _ (mem_of_splitExt_stem hs2 hc))
+          simp [partPrefix, hb, he, hp']
+        · cases h
+      · cases h
+        have hb : '/' ∉ stem := fun hc => hn (hstem _ hc)
+        simp [partPrefix, hb, he, hp']
+    · cases h
+      exact hwe _ hstem
+
+-- ---------------------------------------------------------------- splitPath
+
+/-- a directory prefix of a simple path: empty, or ending with the separator -/
+def DirPrefix (dir : Str) : Prop := dir = [] ∨ dir.getLast? = some '/'
+
+instance : DecidablePred DirPrefix := fun _ => inferInstanceAs (Decidable (_ ∨ _))
+
+theorem splitPath_append (dir name : Str) (hd : DirPrefix dir) (hn : '/' ∉ name) :
+    splitPath (dir ++ name) = (dir, name) := by
+  have h1 : (dir.reverse).takeWhile (· ≠ '/') = [] := by
+    rcases hd with hd | hd
+    · subst hd; rfl
+    · obtain ⟨ys, hys⟩ := List.getLast?_eq_some_iff.mp hd
+      subst hys
+      simp
+  have h2 : ((dir ++ name).reverse.takeWhile (· ≠ '/')).reverse = name := by
+    rw [List.reverse_append, List.takeWhile_append_of_pos, h1]
+    · simp
+    · intro a ha
+      have : a ≠ '/' := fun h => hn (by rw [← h]; simpa using ha)
+      simpa using this
+  unfold splitPath
+  simp only [h2]
+  rw [List.take_left' (by simp)]
+
+theorem withPart_append (dir name : Str) (n : Nat) (hd : DirPrefix dir) (hn : '/' ∉ name) :
+    withPart (dir ++ name) n = (withExt name n).map (dir ++ ·) := by
+  simp only [withPart, splitPath_append dir name hd hn]
+
+theorem removePart_append (dir name : Str) (hd : DirPrefix dir) (hn : '/' ∉ name) :
+    removePart (dir ++ name) = (removeExt name).map (dir ++ ·) := by
+  simp only [removePart, splitPath_append dir name hd hn]
+
 end Pna.Cli.PartName
